@@ -500,6 +500,10 @@ impl ItemizedBlock {
             line_start = itemized_block_quote_start(line, line_start, 2);
             indent = line_start.len();
         }
+        // `> >>>> x` has fewer bytes in front of its text than the normalized `> > > > > `.
+        if !line.is_char_boundary(indent) {
+            return None;
+        }
         Some(ItemizedBlock {
             lines: vec![line[indent..].to_string()],
             indent,
